@@ -144,6 +144,9 @@ func verifEncryptedEl(tag string, name string, p verifProfile, depth int) *etree
 	case 1:
 		// text that is not base64 of anything: wrong alphabet, or a length no encoder produces (1 or 5 characters, stray padding)
 		bad := []string{"%%% not base64 %%%", "A", "QUJDR", "QQ=", "=", "QUJD\n R"}
+		if p.small {
+			bad = bad[:1] // the structural profile varies the tree, not the text
+		}
 		el.CreateElement("xenc:CipherData").CreateElement("xenc:CipherValue").SetText(bad[verifChoose(tag+".badtext", len(bad))])
 	case 2:
 		el.CreateElement("xenc:CipherData")
